@@ -75,13 +75,10 @@ into the corresponding storage operation -/
 def expandTF (cells : List Slice) (t : String) : Option (Op Int) :=
   match t.splitOn " " with
   | ["settf", c, i, v] => match c.toNat?, i.toNat?, parseIntTok v with
-    | some c, some i, some v =>
-      match cells[c]? with
-      | some s => if i < s.len then some (.replace c i v) else some (.add c (List.replicate (i - s.len) nilElem ++ [v]))
-      | none => some (.replace c i v)
+    | some c, some i, some v => some (leafWrite nilElem ⟨[], cells⟩ c i v)
     | _, _, _ => none
   | ["unsettf", c, i] => match c.toNat?, i.toNat? with
-    | some c, some i => some (.delete c [i]) | _, _ => none
+    | some c, some i => some (leafUnset c i) | _, _ => none
   | _ => parseSlOp t
 
 def execSl (opText outcome snap : String) : M Unit := do
